@@ -136,33 +136,17 @@ theorem cand_not_missing {d : Doc} {p : Path} (hd : noNestedArrays (.doc d) = tr
     {c : V × Bool} (hc : c ∈ cand (.doc d) p) : c.1.isMissing = false :=
   nna_not_missing (cand_nna p (.doc d) false hd c hc)
 
-theorem flat_isEmpty (cs : List (V × Bool)) (h : cs.all (fun c => !isEmptyArr c.1) = true) :
-    (cs.flatMap fun c => flat c.1).isEmpty = cs.isEmpty := by
-  cases cs with
-  | nil => rfl
-  | cons c r =>
-    simp only [List.all_cons, Bool.and_eq_true, Bool.not_eq_true'] at h
-    simp only [List.flatMap_cons, List.isEmpty_cons]
-    cases hc : c.1 with
-    | arr a =>
-      cases a with
-      | nil => simp [hc, isEmptyArr] at h
-      | cons x xs => simp [flat]
-    | _ => simp [flat]
-
 theorem matchExists_agrees {d : Doc} {path : String} (hd : PathDom d path) (arg : V)
-    (hdec : isDec arg = false)
-    (hc : fans (.doc d) (splitPath path) = true →
-      (cand (.doc d) (splitPath path)).all (fun c => !isEmptyArr c.1) = true) :
+    (hdec : isDec arg = false) :
     matchExists d path arg = toRes (truthy arg == !(cand (.doc d) (splitPath path)).isEmpty) := by
   unfold matchExists
   rw [existsArg_truthy arg hdec]
   by_cases hf : fans (.doc d) (splitPath path) = true
-  · rw [(All_fan d _ hd.nna hd.segs hf).2]
-    simp only [↓reduceIte, flat_isEmpty _ (hc hf)]
+  · rw [(All_fan d _ hd.nna hd.segs hf).1]
+    simp only [↓reduceIte, List.isEmpty_map]
     rfl
   · have hf' : fans (.doc d) (splitPath path) = false := by simpa using hf
-    obtain ⟨h1, h2⟩ := All_noFan d (splitPath path) true true hd.nna hd.segs hf'
+    obtain ⟨h1, h2⟩ := All_noFan d (splitPath path) true false hd.nna hd.segs hf'
     rw [h1]
     simp only [Bool.false_eq_true, ↓reduceIte]
     cases hcs : cand (.doc d) (splitPath path) with
@@ -173,25 +157,7 @@ theorem matchExists_agrees {d : Doc} {path : String} (hd : PathDom d path) (arg 
 
 /-! ### $type -/
 
-/-- the test lungo's `$type` callback performs on an offered value -/
-def typePred (number : Bool) (ts : List Nat) (l : V) : Bool :=
-  (number && l.cls == .number) || ts.contains l.typ
-
-theorem typeCb_bool (number : Bool) (ts : List Nat) :
-    (fun field : V => if (number && field.cls == .number) = true then (Except.ok () : Res Unit)
-        else if ts.contains field.typ = true then .ok () else notMatched)
-      = boolOp (typePred number ts) := by
-  funext field
-  unfold boolOp typePred
-  by_cases h1 : (number && field.cls == .number) = true
-  · simp [h1]
-  · by_cases h2 : ts.contains field.typ = true
-    · simp_all [notMatched]
-    · simp_all [notMatched]
-
-/-- PREPARED for the fixed matchType (callback skips Missing first): that callback is exactly the
-    reference test `typeHolds`. After the model mirrors the fix, use this instead of `typeCb_bool` in
-    `matchType_unfold`; `typePred`, `typePred_typeHolds` and every `h10` hypothesis then go away. -/
+/-- matchType's callback (which skips Missing first) is exactly the reference test `typeHolds` -/
 theorem typeCb_fixed_bool (number : Bool) (ts : List Nat) :
     (fun field : V => if field.isMissing = true then notMatched
         else if (number && field.cls == .number) = true then (Except.ok () : Res Unit)
@@ -207,17 +173,9 @@ theorem typeCb_fixed_bool (number : Bool) (ts : List Nat) :
       · simp_all [notMatched]
       · simp_all [notMatched]
 
-/-- LOCAL POINT of the known deviation D1: lungo tests `missing` like a null; as long as the type
-    list does not name null this is invisible. (After a fix of matchType that skips Missing, the
-    model's predicate IS `typeHolds` and the hypothesis disappears.) -/
-theorem typePred_typeHolds (number : Bool) (ts : List Nat) (h10 : ts.contains 0x0A = false) (l : V) :
-    typePred number ts l = typeHolds number ts l := by
-  unfold typePred typeHolds
-  cases l <;> simp_all [V.isMissing, V.cls, V.typ]
-
 theorem matchType_unfold (d : Doc) (path : String) (v : V) (number : Bool) (ts : List Nat)
     (hp : parseType v = some (.type number ts)) :
-    matchType d path v = toRes (unwindAny d path true false (typePred number ts)) := by
+    matchType d path v = toRes (unwindAny d path true false (typeHolds number ts)) := by
   unfold parseType at hp
   unfold matchType
   cases v with
@@ -233,23 +191,21 @@ theorem matchType_unfold (d : Doc) (path : String) (v : V) (number : Bool) (ts :
         obtain ⟨n, t⟩ := r
         simp only [hr, Option.some.injEq, Cond.type.injEq] at hp
         obtain ⟨rfl, rfl⟩ := hp
-        simp only [Bool.false_eq_true, ↓reduceIte, typeCb_bool, matchUnwind_toRes]
+        simp only [Bool.false_eq_true, ↓reduceIte, typeCb_fixed_bool, matchUnwind_toRes]
   | _ =>
     simp only at hp ⊢
     split at hp
     · rename_i n t hr
       simp only [Option.some.injEq, Cond.type.injEq] at hp
       obtain ⟨rfl, rfl⟩ := hp
-      simp only [hr, typeCb_bool, matchUnwind_toRes]
+      simp only [hr, typeCb_fixed_bool, matchUnwind_toRes]
     · simp at hp
 
 theorem matchType_agrees {d : Doc} {path : String} (hd : PathDom d path) (v : V) (number : Bool) (ts : List Nat)
-    (hp : parseType v = some (.type number ts)) (h10 : ts.contains 0x0A = false)
+    (hp : parseType v = some (.type number ts))
     (hc : fans (.doc d) (splitPath path) = true → scalarTypes ts = true) :
     matchType d path v = toRes ((leafs d (splitPath path)).any (typeHolds number ts)) := by
   rw [matchType_unfold d path v number ts hp]
-  have : typePred number ts = typeHolds number ts := funext (typePred_typeHolds number ts h10)
-  rw [this]
   refine congrArg toRes (leaf_any d path _ hd.nna hd.segs fun hf => ?_)
   have hs := hc hf
   simp only [scalarTypes, Bool.and_eq_true, Bool.not_eq_true'] at hs
